@@ -41,6 +41,7 @@ type Profile struct {
 	NestedSlices    bool
 	MutualRecursion bool
 	AllRules        bool // draw validators from every rule either converter understands (C11)
+	BareControllers bool // controllers without @Route / @Tag / any doc comment at all
 }
 
 var verbs = []string{"GET", "POST", "PUT", "DELETE", "PATCH"}
@@ -552,6 +553,16 @@ func (g *gen) genControllers() {
 		c.Descr = g.descr()
 		if prof.Security && g.chance(0.4) {
 			c.Security = g.genSecurityList()
+		}
+		if prof.BareControllers && i > 0 && g.chance(0.25) {
+			// no @Route; sometimes no doc comment at all (declared right after a documented controller)
+			c.NoRouteAnn, c.Route = true, ""
+			if g.chance(0.6) {
+				c.NoTag, c.Tag, c.Descr, c.Security = true, "", "", nil
+				p.SetFeature("controller-without-any-doc")
+			} else {
+				p.SetFeature("controller-without-route")
+			}
 		}
 		nm := g.r.Intn(prof.MaxMethods + 1)
 		if i == 0 && nm == 0 {
